@@ -206,7 +206,8 @@ fn dynamic_external(depth: usize) -> ExtAcc {
 // ---------------------------------------------------------------------------------------------
 // (2) replies of any shape
 
-pub const REPLY_LINES: [&str; 17] = [
+pub const REPLY_LINES: [&str; 18] = [
+    "caught signal 11",
     "s SATISFIABLE", "s UNSATISFIABLE", "s UNKNOWN", "v 1 -2 0", "v 1 -2", "v 1", "v -2 0", "v 0", "v", "v ", "v 1 x 0", "v 3 0", "v 1 0 2", "c", "c text", "", "garbage",
 ];
 
